@@ -318,6 +318,29 @@ def transpile_stage_tables() -> dict[str, list[str]]:
 	return {'mainCatch': [_catch_atom(h.type, '__main__') for h in t.handlers]}
 
 
+def unload_shape() -> bool:
+	"""Modules.unload: pinned = `loader.unload; del`; repaired (023f8e8) = `loader.unload; del; for dependent in __dependent_paths: self.unload(dependent)`
+	(removal BEFORE the cascade — the order the termination theorem `unload_terminates` is about)."""
+	with open(os.path.join(REPO, 'rogw/tranp/module/modules.py'), encoding='utf-8') as f:
+		tree = ast.parse(f.read())
+	fn = _find_func(tree, 'Modules', 'unload')
+	body = [x for x in fn.body if not (isinstance(x, ast.Expr) and isinstance(x.value, ast.Constant))]
+	if len(body) != 1 or not isinstance(body[0], ast.If) or ast.unparse(body[0].test) != 'module_path in self.__modules' or body[0].orelse:
+		raise TranslateError('Modules.unload: expected the single `if module_path in self.__modules:`')
+	stmts = [ast.unparse(x) for x in body[0].body]
+	base = ['module = self.__modules[module_path]', 'self.__loader.unload(module.module_path)', 'del self.__modules[module_path]']
+	cascade = 'for dependent_path in self.__dependent_paths(module_path):\n    self.unload(dependent_path)'
+	if stmts == base:
+		return False
+	if stmts == [*base, cascade]:
+		dp = _find_func(tree, 'Modules', '__dependent_paths')
+		text = ' ; '.join(ast.unparse(x) for x in dp.body if not (isinstance(x, ast.Expr) and isinstance(x.value, ast.Constant)))
+		if 'module_path in import_paths or (module_path in library_paths and path not in library_paths)' not in text or 'for path, module in self.__modules.items()' not in text:
+			raise TranslateError(f'Modules.__dependent_paths: unrecognised body: {text}')
+		return True
+	raise TranslateError(f'Modules.unload: unrecognised body {stmts}')
+
+
 def interactive_tables() -> dict[str, list[str]]:
 	path = os.path.join(REPO, 'rogw/tranp/bin/transpile.py')
 	with open(path, encoding='utf-8') as f:
@@ -473,6 +496,9 @@ def render(errs: list[tuple[str, str, bool]], bis: list[tuple[str, str | None]],
 	L.append('/-- Modules.load looks the module up again after the library modules were loaded -/')
 	L.append(f"def modulesLoadRechecks : Bool := {'true' if tables['modulesLoadRechecks'] else 'false'}")
 	L.append('')
+	L.append('/-- Modules.unload also unloads the registered modules that depend on the unloaded one (after removing it) -/')
+	L.append(f"def modulesUnloadCascades : Bool := {'true' if flags['modulesUnloadCascades'] else 'false'}")
+	L.append('')
 	L.append('/-- SyntaxParserOfLark.__load_source appends a line feed to a text that does not end in one (both branches) -/')
 	L.append(f"def sourceCompletesNewline : Bool := {'true' if flags['sourceCompletesNewline'] else 'false'}")
 	L.append('')
@@ -497,7 +523,7 @@ def generate() -> list[dict[str, Any]]:
 	for need in ('Exception', 'BaseException', 'TypeError', 'AssertionError', 'KeyboardInterrupt'):
 		if need not in [k for k, _ in bis]:
 			raise TranslateError(f'builtin {need} missing')
-	flags = {**render_tables(), **pflags}
+	flags = {**render_tables(), **pflags, 'modulesUnloadCascades': unload_shape()}
 	changed = write_if_changed(OUT, render(errs, bis, tables, flags))
 	return [{
 		'file': os.path.relpath(OUT, os.path.dirname(GENERATED_DIR)),
@@ -508,6 +534,7 @@ def generate() -> list[dict[str, Any]]:
 		'handlers': {k: len(v) for k, v in tables.items() if k != 'modulesLoadRechecks'},
 		'mem_branch_wrapped': bool(tables['parserMemHandlers']),
 		'modules_load_normalised': bool(tables['modulesLoadHandlers']),
+		'modules_unload_cascades': flags['modulesUnloadCascades'],
 		'source_completes_newline': flags['sourceCompletesNewline'],
 		'source_completion_skips_empty': flags['sourceCompletionSkipsEmpty'],
 		'quotation_span_guard': flags['quotationSpanGuard'],
